@@ -9,6 +9,7 @@
     result  -(i+1)   call i, judged as a call made alone ([JGenCall.judge_call]: [rpc_call_c] on its arguments and
                      outcome, [server_process_c] / [process_reply_c] on its bytes), is not what was observed in
                      the burst, i.e. the conclusion of the theorem fails on this run;
+            -1000    the case is malformed (a method the client does not resolve);
             -1001    the op ids of the calls are not pairwise distinct ([call_op]);
             -1002    [delivered_aloneb] fails for a call;
             -1003    a reply frame travelled that is not the server model's reply to one of the calls
@@ -90,7 +91,7 @@ Definition judge_burst (c : tok) : Z :=
                 | _ => false
                 end) replies) then -1003 else
     percall + 16384
-  | _, _ => -1
+  | _, _ => -1000
   end.
 
 Definition judge (cases : list tok) : list Z := map judge_burst cases.
